@@ -5,6 +5,7 @@ import (
 	"fmt"
 	"sort"
 	"strings"
+	"time"
 )
 
 var varExtra = map[string]bool{"set": true, "hmset": true, "lpush": true, "rpush": true, "sadd": true, "srem": true, "zadd": true,
@@ -822,4 +823,150 @@ func init() {
 		res.Sample = fmt.Sprintf("%d clients (slow readers), %d requests, read buffer %d B, client send buffer %d B, backend send buffer %d B: %d blocked and %d short writes, %d short reads",
 			len(d.Clients), totalReqs(d), d.P.Proxy.BufCap, d.P.Kernel.ClientSndCap, d.P.Kernel.BackendSndCap, d.K.Stats.EAGAINWrite, d.K.Stats.ShortWrites, d.K.Stats.ShortReads)
 	}})
+}
+
+// ---- C07 (thorough): every arrival order of the fragment replies of fixed request shapes ----
+//
+// variant "perm:<shape>:<perm>:<cut>": the request is derived from <shape> alone (k fragments on k different masters),
+// all k replies are held until every fragment was consumed, then released in the <perm>-th permutation (of the
+// connections ordered by node address); cut >= 0 additionally splits the first released reply after <cut> bytes with a
+// poll in between.
+
+func init() {
+	register(&Profile{Name: "C07perm", Prop: "C07", Gen: genC07perm, Run: runC07perm})
+}
+
+func genC07perm(g *Gen) {
+	p := g.Plan
+	var shape, perm, cut int
+	cut = -1
+	fmt.Sscanf(p.Variant, "perm:%d:%d:%d", &shape, &perm, &cut)
+	r := NewRng(uint64(shape) + 77).Derive("c07shape")
+	g.R = r
+	p.Topos = []Topology{g.StdTopology(5, 0, false)}
+	p.Proxy.DisableSlave = true
+	p.Proxy.ServerConns = 1
+	p.Proxy.BufCap = []int{64, 65536}[r.Intn(2)]
+	g.cleanKernel()
+	k := 2 + shape%4 // 2..5 fragments
+	cmd := []string{"mget", "del", "mset"}[(shape/4)%3]
+	tok := Tok(0, 0)
+	var keys, vals []string
+	mastersUsed := r.Intn(5)
+	for i := 0; i < k; i++ {
+		rg := p.Topos[0].Nodes[(mastersUsed+i)%5].Slots[0]
+		slot := r.Range(rg[0], rg[1])
+		n := 1 + r.Intn(3)
+		for j := 0; j < n; j++ {
+			key := Key(tok, i*10+j, slot, "")
+			if j > 0 && r.Pct(30) && cmd != "mset" {
+				key = keys[len(keys)-1] // duplicate
+			}
+			keys = append(keys, key)
+			if r.Pct(60) {
+				p.Prepop = append(p.Prepop, [2]string{key, []string{"", "v\r\n", "$3\r\nabc", fmt.Sprintf("val%d", i)}[r.Intn(4)]})
+			}
+		}
+	}
+	// interleave the keys of different slots
+	for i := len(keys) - 1; i > 0; i-- {
+		j := r.Intn(i + 1)
+		keys[i], keys[j] = keys[j], keys[i]
+	}
+	if cmd == "mset" {
+		for i := range keys {
+			vals = append(vals, fmt.Sprintf("v%d", i))
+		}
+	}
+	cp := ClientPlan{Addr: clientAddr(0), Mode: "pipeline", CloseAfterSent: -1, CloseAfterReplies: -1}
+	cp.Reqs = append(cp.Reqs, g.Split(tok, cmd, keys, vals))
+	cp.Reqs = append(cp.Reqs, g.Single(Tok(0, 1), "get", Key(Tok(0, 1), 0, -1, "")))
+	p.Clients = append(p.Clients, cp)
+	p.Notes = []string{fmt.Sprintf("k=%d perm=%d cut=%d", k, perm, cut)}
+}
+
+func nthPerm(n, idx int) []int {
+	items := make([]int, n)
+	for i := range items {
+		items[i] = i
+	}
+	var out []int
+	f := 1
+	for i := 2; i <= n; i++ {
+		f *= i
+	}
+	idx %= f
+	for i := n; i >= 1; i-- {
+		f /= i
+		j := idx / f
+		idx %= f
+		out = append(out, items[j])
+		items = append(items[:j], items[j+1:]...)
+	}
+	return out
+}
+
+func runC07perm(d *Driver, res *Result) {
+	var shape, perm, cut int
+	cut = -1
+	fmt.Sscanf(d.P.Variant, "perm:%d:%d:%d", &shape, &perm, &cut)
+	k := 2 + shape%4
+	d.boot()
+	res.Converged = d.converge(15 * time.Second)
+	if !res.Converged {
+		res.Error = "proxy did not adopt the initial topology"
+		return
+	}
+	d.HoldData = true
+	c := d.Clients[0]
+	d.connect(c)
+	d.send(c, d.sendable(c))
+	holding := func() []*BConn {
+		var hs []*BConn
+		for _, bc := range d.C.Conns() {
+			for _, r := range bc.Pending {
+				if r.Kind == "data" && len(r.Tokens) > 0 && strings.HasPrefix(r.Tokens[0], Tok(0, 0)+"k") {
+					hs = append(hs, bc)
+					break
+				}
+			}
+		}
+		sort.Slice(hs, func(a, b int) bool { return hs[a].Node.Addr < hs[b].Node.Addr })
+		return hs
+	}
+	for i := 0; i < 60 && len(holding()) < k; i++ {
+		d.Poll()
+		d.pumpBackends()
+	}
+	hs := holding()
+	if len(hs) != k {
+		res.Error = fmt.Sprintf("expected %d fragments held at distinct backends, got %d", k, len(hs))
+		return
+	}
+	order := nthPerm(k, perm)
+	for n, idx := range order {
+		bc := hs[idx]
+		// release exactly the held data reply of this connection (handshake/probe replies flow freely)
+		rec := bc.Pending[0]
+		total := len(rec.Reply) - bc.relOff
+		if n == 0 && cut >= 0 && cut < total {
+			d.HoldData = false
+			d.release(bc, cut%total+0)
+			d.HoldData = true
+			d.Poll()
+			total = len(rec.Reply) - bc.relOff
+		}
+		d.HoldData = false
+		d.release(bc, total)
+		d.HoldData = true
+		d.trace("released fragment reply %d of %d from %s", n+1, k, bc.Node.Addr)
+		d.Poll()
+		d.Poll()
+	}
+	d.HoldData = false
+	d.settle()
+	d.StdReplyCheck("C07", Relax{})
+	res.Nontrivial = true
+	d.Counters["c07_enumerated_orders"] = 1
+	res.Sample = fmt.Sprintf("shape %d (%s, %d fragments), arrival order %v, first reply cut at %d", shape, c.Plan.Reqs[0].Cmd, k, order, cut)
 }
